@@ -27,7 +27,8 @@ def families(tier):
         d["alpha"]["clusters"] = False
         D.trim_to_budget(d, bud)
         fam.append(d)
-    return fam + D.cmd_or_pos_family(SEED + 13, 8 if tier == "quick" else 24, maxlen=3 if tier == "quick" else 4, budget=bud) + D.amb_family(SEED + 12, 4 if tier == "quick" else 12, maxlen=2 if tier == "quick" else 3)
+    return fam + D.prepos_family(SEED + 19, 8 if tier == "quick" else 24, maxlen=3 if tier == "quick" else 4, budget=bud,
+                                 extras=("help", "ver", "unk")) + D.cmd_or_pos_family(SEED + 13, 8 if tier == "quick" else 24, maxlen=3 if tier == "quick" else 4, budget=bud) + D.amb_family(SEED + 12, 4 if tier == "quick" else 12, maxlen=2 if tier == "quick" else 3)
 
 
 def run(v):
@@ -53,6 +54,8 @@ def run(v):
         D.galpha_trim(d, 4000 if q else 50000)
         d["alpha"]["extras"] = ["help"]
     gfam += gfam_alt
+    # a positional item declared in front of a name-led adjacent group
+    gfam += D.posfirst_family(SEED + 21, 8 if q else 24, maxlen=4 if q else 5, budget=4000 if q else 40000)
     def gsig(m):
         if cmdline_sig.is_f16(m):
             return {"rule": "help_hidden_by_failing_adjacent_command"}
